@@ -3,6 +3,7 @@
 package cl
 
 import (
+	"math"
 	"math/big"
 
 	"github.com/ohler55/slip"
@@ -53,7 +54,11 @@ func (f *Decf) Call(s *slip.Scope, args slip.List, depth int) (result slip.Objec
 		delta = args[1]
 		switch td := delta.(type) {
 		case slip.Fixnum:
-			delta = -td
+			if td == math.MinInt64 { // the one fixnum whose negation is not a fixnum
+				delta = (*slip.Bignum)(new(big.Int).Neg(big.NewInt(int64(td))))
+			} else {
+				delta = -td
+			}
 		case slip.SingleFloat:
 			delta = -td
 		case slip.DoubleFloat:
